@@ -337,11 +337,23 @@ func gen(seed uint64, tier string, o *hx.Out) {
 	}
 	next := func() int { id++; return id }
 	h := func(s string) string { return hx.Hex([]byte(s)) }
-	for i := 0; i < n; i++ {
-		c := genConstraint(r)
-		emit(fmt.Sprintf("N %d %s %s", next(), h(genDomain(r, c)), h(c)))
+	// every case is emitted once: a body that was already generated is drawn again (at most 20n draws per class)
+	seen := map[string]bool{}
+	emitU := func(op, body string) bool {
+		if seen[op+" "+body] {
+			return false
+		}
+		seen[op+" "+body] = true
+		emit(fmt.Sprintf("%s %d %s", op, next(), body))
+		return true
 	}
-	for i := 0; i < n; i++ {
+	for cnt, tries := 0, 0; cnt < n && tries < 20*n; tries++ {
+		c := genConstraint(r)
+		if emitU("N", h(genDomain(r, c))+" "+h(c)) {
+			cnt++
+		}
+	}
+	for cnt, tries := 0, 0; cnt < n && tries < 20*n; tries++ {
 		p := randName(r)
 		if r.Intn(4) == 0 {
 			p = mutate(r, p)
@@ -358,12 +370,16 @@ func gen(seed uint64, tier string, o *hx.Out) {
 				}
 			}
 		}
-		emit(fmt.Sprintf("M %d %s %s", next(), h(p), h(host)))
+		if emitU("M", h(p)+" "+h(host)) {
+			cnt++
+		}
 	}
-	for i := 0; i < n; i++ {
-		emit(fmt.Sprintf("L %d %s", next(), h(genLowerIn(r))))
+	for cnt, tries := 0, 0; cnt < n && tries < 20*n; tries++ {
+		if emitU("L", h(genLowerIn(r))) {
+			cnt++
+		}
 	}
-	for i := 0; i < n; i++ {
+	for cnt, tries := 0, 0; cnt < n && tries < 20*n; tries++ {
 		k := r.Pick([]int{0, 1, 1, 2, 2, 3, 3, 3, 4, 4})
 		chain := "-"
 		if k > 0 {
@@ -373,7 +389,9 @@ func gen(seed uint64, tier string, o *hx.Out) {
 			}
 			chain = strings.Join(p, ";")
 		}
-		emit(fmt.Sprintf("K %d %s %s", next(), chain, hx.Ints(genUsages(r))))
+		if emitU("K", chain+" "+hx.Ints(genUsages(r))) {
+			cnt++
+		}
 	}
 }
 
